@@ -113,8 +113,11 @@ def ensure_build(repo=None):
         ds = [d for d in os.listdir(CACHE) if os.path.isdir(os.path.join(CACHE, d))]
         ds.sort(key=lambda d: os.path.getmtime(os.path.join(CACHE, d, ".built")) if os.path.exists(os.path.join(CACHE, d, ".built")) else 0,
                 reverse=True)
+        # ... but never one that was used recently: a concurrent check may still be running on it
+        ttl = int(os.environ.get("VERIF_BUILD_TTL", "10800"))
         for d in ds[keep:]:
-            if d != key:
+            m = os.path.join(CACHE, d, ".built")
+            if d != key and (not os.path.exists(m) or time.time() - os.path.getmtime(m) > ttl):
                 shutil.rmtree(os.path.join(CACHE, d), ignore_errors=True)
     return dst
 
@@ -142,6 +145,10 @@ def run_workers(build, module, jobs, timeout=1800):
                                capture_output=True, env=env, cwd=WORK, timeout=timeout)
         except subprocess.TimeoutExpired:
             return {"crash": "timeout", "job": job}
+        if r.returncode == 97:
+            # not a verdict about the implementation: the scratch build the worker was pointed at is not
+            # the copy it imported (removed by a concurrent run); the whole check is void
+            raise RuntimeError("infrastructure failure: " + r.stderr[-300:])
         if r.returncode != 0:
             return {"crash": f"exit {r.returncode}", "stderr": r.stderr[-4000:], "job": job}
         try:
